@@ -633,6 +633,8 @@ def _event_at(trace, l, off):
     try:
         if l is None:
             return None
+        if isinstance(trace, dict) and 'events' in trace:
+            trace = trace['events']
         idx = int(l) - 1 + off
         if 0 <= idx < len(trace):
             return trace[idx]
